@@ -64,7 +64,7 @@ func (c *Ctx) amwLike() map[*types.Func]bool {
 func c05(c *Ctx) {
 	r := c.R
 	r.Explanation = "Partial: (A1) every HTTP write handler acknowledges (returns without an error answer or a hand-off to the leader) only on paths that pass the nil-error edge of applyMessageWait for the proposal they built; (A2) applyMessageWait returns nil only after the raft future completed without error and the FSM response is not an error, with no goroutine hand-off; (A3) raft's log store, stable store and snapshot store are the LevelDB/file stores under -raftdir and FSM.store is that same log store; the stores are opened from files. (A4) the delivery loop of GetMessages hands a batch to the connection only on the false edge of 'batch older than the client's position' and after advancing the position to it. Fail-over, restart and exactly-once-everywhere behaviour of raft + LevelDB under faults are not decided."
-	r.Rules = []string{"C05.A1 ack-after-commit", "C05.A2 commit means committed-and-applied", "C05.A3 durable wiring", "C05.A4 delivery loop never goes backwards"}
+	r.Rules = []string{"C05.A1 ack-after-commit", "C05.A2 commit means committed-and-applied", "C05.A3 durable wiring", "C05.A4 delivery loop never goes backwards", "C05.A5 error discipline of the proposing handlers", "C05.A6 the hand-off answers", "C05.A7 proposals are stamped and numbered"}
 	r.Assumptions = []string{"hashicorp/raft and goleveldb honour their documented durability contracts"}
 
 	amw := c.amwLike()
@@ -217,6 +217,7 @@ func c05(c *Ctx) {
 	c.c05A2()
 	c.c05A3()
 	c.deliveryLoop("C05.A4")
+	c.c05API()
 }
 
 // deliveryLoop (C05.A4 = C04.P2): the delivery loop hands a batch to the client connection only when it is not older than
@@ -717,4 +718,113 @@ func mentionsGlobal(info *types.Info, e ast.Expr, name string) bool {
 		return !found
 	})
 	return found
+}
+
+// c05API (A5–A7): found by the sweep of package api.
+//   A5 error discipline and frozen error dispositions of the handlers that propose entries and of applyMessageWait;
+//   A6 the hand-off to the leader answers: every normal return of maybeProxyToLeader has passed the proxy's ServeHTTP or an
+//      http.Error (a hand-off that silently returns makes the handler acknowledge with an empty 200);
+//   A7 the proposal is stamped with the proposing node's clock before it is encoded (compaction and session expiry are
+//      judged by this time), and the id is taken from the raft index after the commit.
+func (c *Ctx) c05API() {
+	r := c.R
+	names := []string{"api.(*HTTP).applyMessageWait", "api.(*HTTP).handlePostMessage", "api.(*HTTP).handleCreateSession", "api.(*HTTP).handleDeleteSession", "api.(*HTTP).handlePostConfig", "api.(*HTTP).applyConfig", "api.(*HTTP).handleKill", "api.(*HTTP).maybeProxyToLeader", "api.parseLastSeen"}
+	nErr := 0
+	for _, n := range names {
+		if fi := c.P.Func(n); fi != nil && fi.Body() != nil {
+			nErr += c.errorDiscipline("C05.A5", fi, "a request is acknowledged although it was not committed, or refused although it was")
+		}
+	}
+	if nErr < 10 {
+		r.Break("C05.A5: only %d error definitions found in the proposing handlers", nErr)
+	}
+	c.errorDispositions("C05.A5", []string{"api"}, func(fn string) bool {
+		for _, n := range names {
+			if fn == n {
+				return true
+			}
+		}
+		return false
+	}, "a request is acknowledged although it was not committed")
+	if mp := c.MustFunc("api.(*HTTP).maybeProxyToLeader"); mp != nil && mp.Body() != nil {
+		info := mp.Info()
+		g := c.Graph(mp)
+		answers := func(x int) bool {
+			if g.V[x].Node == nil {
+				return false
+			}
+			for _, call := range astx.Calls(g.V[x].Node, false) {
+				if fn := astx.Callee(info, call); fn != nil {
+					if isFunc(fn, "net/http", "Error") || fn.Name() == "ServeHTTP" {
+						return true
+					}
+				}
+			}
+			return false
+		}
+		silent := g.Reach(g.Entry, answers, nil)[g.Exit]
+		r.Check(!silent, "C05.A6", mp.Name(), "the hand-off to the leader always answers", c.P.Pos(mp.Node().Pos()), "every path to the return passes <proxy>.ServeHTTP or http.Error",
+			"maybeProxyToLeader can return without having forwarded the request or reported an error: the calling handler returns as well, the client sees an empty 200 and takes the message for accepted — it was never proposed anywhere")
+	}
+	if amw := c.MustFunc("api.(*HTTP).applyMessageWait"); amw != nil && amw.Body() != nil {
+		info := amw.Info()
+		g := c.Graph(amw)
+		isStamp := func(x *cfgx.Vertex) bool {
+			as, ok := x.Node.(*ast.AssignStmt)
+			if !ok || len(as.Lhs) != 1 || len(as.Rhs) != 1 {
+				return false
+			}
+			se, ok := ast.Unparen(as.Lhs[0]).(*ast.SelectorExpr)
+			if !ok || se.Sel.Name != "UnixNano" {
+				return false
+			}
+			found := false
+			for _, call := range astx.Calls(as.Rhs[0], false) {
+				if fn := astx.Callee(info, call); fn != nil && isFunc(fn, "time", "Now") {
+					found = true
+				}
+			}
+			return found
+		}
+		n := 0
+		for _, v := range g.Nodes() {
+			for _, call := range astx.Calls(v.Node, false) {
+				fn := astx.Callee(info, call)
+				if fn == nil || fn.Name() != "Marshal" {
+					continue
+				}
+				n++
+				r.Check(g.DominatedBy(v.ID, isStamp), "C05.A7", amw.Name(), "the proposal is stamped before it is encoded", c.P.Pos(call.Pos()), "msg.UnixNano = time.Now().UnixNano() dominates the Marshal call",
+					"an entry is encoded without the proposing node's time: every replica then dates it by its id (1970), so it is older than any compaction horizon and the session it creates is expired at once")
+			}
+		}
+		if n < 2 {
+			r.Break("C05.A7: only %d Marshal calls found in applyMessageWait", n)
+		}
+		// the id handed back to the caller is the raft index of the committed entry
+		okID := false
+		for _, rv := range g.Returns() {
+			rs := rv.Node.(*ast.ReturnStmt)
+			if len(rs.Results) == 1 && isNilIdent(info, rs.Results[0]) {
+				okID = g.DominatedBy(rv.ID, func(x *cfgx.Vertex) bool {
+					as, ok := x.Node.(*ast.AssignStmt)
+					if !ok || len(as.Lhs) != 1 {
+						return false
+					}
+					se, ok := ast.Unparen(as.Lhs[0]).(*ast.SelectorExpr)
+					if !ok || se.Sel.Name != "Id" {
+						return false
+					}
+					for _, call := range astx.Calls(as.Rhs[0], false) {
+						if fn := astx.Callee(info, call); fn != nil && fname(fn) == "IdFromRaftIndex" {
+							return true
+						}
+					}
+					return false
+				})
+			}
+		}
+		r.Check(okID, "C05.A7", amw.Name(), "a committed message gets the id of its raft index", c.P.Pos(amw.Node().Pos()), "msg.Id.Id = robust.IdFromRaftIndex(f.Index()) dominates return nil",
+			"applyMessageWait reports success without having put the committed entry's id into the message: handleCreateSession hands the client session id 0")
+	}
 }
